@@ -106,7 +106,8 @@ Definition check_wsvg (c : cfg) (ds : list string) (attrs : list dict) (svgattrs
             | None, None => true
             | _, _ => false
             end in
-  let b4 := match svg2paths_svg_attributes f, o_svg with
+  (* svg2paths2 raises before it gets to the svg attributes when a path has no d *)
+  let b4 := match (match svg2paths_read f with Some _ => svg2paths_svg_attributes f | None => None end), o_svg with
             | Some a, Some a' => dict_eqb a a'
             | None, None => true
             | _, _ => false
